@@ -23,6 +23,26 @@ type tgen struct {
 	merged bool
 	// lazyBias: this case prefers nodes that hand their input stream on unread
 	lazyBias bool
+	// noPre: no pipeline nodes (typed_builtin_test.go) here: the members of a chain's parallel /
+	// branch are single nodes
+	noPre bool
+	// pConv, pPre: how often a lambda node becomes a lazily failing converter / a pipeline around a
+	// built-in lambda
+	pConv, pPre float64
+}
+
+// fillOrSpecial: the body and output side of the lambda node n, whose declared input type is
+// chosen; v is the value the reference expects at its input (if known).
+func (g *tgen) fillOrSpecial(n *tnode, v any, known bool, allowSame bool) {
+	r := g.r
+	switch {
+	case allowSame && r.Prob(g.pConv):
+		g.genConv(n, v, known)
+	case !g.noPre && r.Prob(g.pPre):
+		g.genPre(n)
+	default:
+		g.fill(n, allowSame)
+	}
 }
 
 var keyAlphabet = []string{"a", "b", "c", "d"}
@@ -209,31 +229,33 @@ func (g *tgen) genNode(ps []pend, cont string, depth int, allowPass bool) *tnode
 	if !keyed {
 		n.In = g.chooseIn(ps, 0.88)
 	}
+	// the value the reference expects at the node's input
+	var v any
+	known := true
+	if n.InKey != "" {
+		probe2 := &rres{}
+		m := probe2.deliver(ps, tMap).V
+		if mm, ok := m.(map[string]any); ok {
+			v = mm[n.InKey]
+		}
+		if !dynOK(v, n.In) {
+			v, known = g.genInput(n.In), false
+		}
+	} else {
+		probe := &rres{}
+		v = probe.deliver(ps, n.In).V
+		if probe.stopped() {
+			v, known = g.genInput(n.In), false
+		}
+	}
 	// a nested program
 	if depth < g.maxNest && r.Prob(0.14) {
-		probe := &rres{}
-		var v any
-		if n.InKey != "" {
-			probe2 := &rres{}
-			m := probe2.deliver(ps, tMap).V
-			if mm, ok := m.(map[string]any); ok {
-				v = mm[n.InKey]
-			}
-			if !dynOK(v, n.In) {
-				v = g.genInput(n.In)
-			}
-		} else {
-			v = probe.deliver(ps, n.In).V
-			if probe.stopped() {
-				v = g.genInput(n.In)
-			}
-		}
 		subCont := mon.PickOne(r, []string{"pregel", "dag", "chain", "workflow"})
 		n.Sub = g.genSpec(subCont, n.In, v, depth+1)
 		n.Out = n.Sub.Out
 		n.Para = pI | pT
 	} else {
-		g.fill(n, true)
+		g.fillOrSpecial(n, v, known, true)
 	}
 	if cont != "workflow" && r.Prob(0.2) {
 		n.OutKey = mon.PickOne(r, keyAlphabet)
@@ -245,6 +267,8 @@ func (g *tgen) genNode(ps []pend, cont string, depth int, allowPass bool) *tnode
 func (g *tgen) genSpec(cont string, inTy ty, in any, depth int) *tspec {
 	r := g.r
 	s := &tspec{Cont: cont, In: inTy}
+	defer func(old bool) { g.noPre = old }(g.noPre)
+	g.noPre = false // (a restriction of the surrounding container does not reach into a nested program)
 	nseg := r.Range(1, g.maxSegs)
 	if depth > 0 {
 		nseg = r.Range(1, 2)
@@ -259,6 +283,8 @@ func (g *tgen) genSpec(cont string, inTy ty, in any, depth int) *tspec {
 				kind = "par"
 			case x < 4 && cont != "workflow":
 				kind = "branch"
+			case x < 5 && cont == "workflow":
+				kind = "switch"
 			}
 		}
 		sg := &tseg{Kind: kind}
@@ -275,6 +301,9 @@ func (g *tgen) genSpec(cont string, inTy ty, in any, depth int) *tspec {
 			sg.Nodes = g.genPar(s, cur, cont, depth)
 		case "branch":
 			g.genBranch(sg, cur, cont, depth)
+		case "switch":
+			g.merged = true
+			g.genSwitch(s, sg, cur, depth, lastKind == "start")
 		}
 		s.Segs = append(s.Segs, sg)
 		// follow the value
@@ -315,6 +344,10 @@ func (g *tgen) genPar(s *tspec, cur []pend, cont string, depth int) []*tnode {
 	}
 	perm := r.Perm(len(keyAlphabet))
 	var nodes []*tnode
+	// (any-predecessor mode: the arms of a fan-in must be equally long, a pipeline of several real
+	// nodes would make the consumer run twice)
+	defer func(old bool) { g.noPre = old }(g.noPre)
+	g.noPre = cont == "chain" || cont == "pregel"
 	for i := 0; i < k; i++ {
 		var n *tnode
 		if cont == "workflow" {
@@ -322,6 +355,7 @@ func (g *tgen) genPar(s *tspec, cur []pend, cont string, depth int) []*tnode {
 		} else {
 			n = g.genNode(cur, cont, depth, false)
 		}
+		defer g.normPre(n)
 		n.OutKey = ""
 		switch mode {
 		case "keys":
@@ -387,15 +421,21 @@ func (g *tgen) genBranch(sg *tseg, cur []pend, cont string, depth int) {
 	r := g.r
 	sg.CondTy = g.chooseIn(cur, 0.9)
 	sg.CondStream = r.Bool()
-	sg.CondRule = mon.PickOne(r, []string{"nil", "nil", "hash"})
+	sg.CondRule = mon.PickOne(r, []string{"nil", "nil", "hash", "type"})
 	k := r.Range(2, 3)
 	if sg.CondRule == "nil" {
 		k = 2
 	}
 	var outTy ty
 	outKeyed := r.Prob(0.15)
+	defer func(old bool) { g.noPre = old }(g.noPre)
+	g.noPre = cont == "chain"
+	if sg.CondRule == "type" {
+		defer g.typeSwitchTargets(sg, cur)
+	}
 	for i := 0; i < k; i++ {
 		n := g.genNode(cur, cont, depth, false)
+		defer g.normPre(n)
 		n.OutKey = ""
 		if i == 0 {
 			outTy = n.Out
@@ -411,6 +451,9 @@ func (g *tgen) genBranch(sg *tseg, cur []pend, cont string, depth int) {
 			n.Out = outTy
 			n.Dyn = mon.PickOne(r, dynsFor(outTy))
 			n.Lazy = false
+		}
+		if n.Conv != "" && (n.Out != n.In || n.Dyn != dSame) {
+			n.Conv = "" // re-typed: an ordinary node
 		}
 		if outKeyed {
 			n.OutKey = "k"
@@ -457,7 +500,9 @@ func (g *tgen) genWorkflowNode(s *tspec, cur []pend, depth int) *tnode {
 		for i := range cur {
 			n.JoinKeys = append(n.JoinKeys, "j"+keyAlphabet[perm[i]])
 		}
-		g.fill(n, true)
+		probe := &rres{}
+		v := probe.consume(cur, n.In, nil, n.JoinKeys).V
+		g.fillOrSpecial(n, v, !probe.stopped(), true)
 		return n
 	}
 	p := cur[0]
@@ -467,7 +512,9 @@ func (g *tgen) genWorkflowNode(s *tspec, cur []pend, depth int) *tnode {
 	n := &tnode{Key: g.key()}
 	m, in := g.genMapping(p)
 	n.Map, n.In = m, in
-	g.fill(n, true)
+	probe := &rres{}
+	v := probe.mapOne(p.V, p.Ty, m, in)
+	g.fillOrSpecial(n, v, !probe.stopped(), true)
 	if s != nil && m.To != "" && (in == tRec || in == tPtr) {
 		s.Atomic = true
 	}
